@@ -91,9 +91,11 @@ where
     OneOrSet(match self.0 {
       OneOrSetInner::One(item) => OneOrSetInner::One(f(item)),
       OneOrSetInner::Set(set_t) => {
+        let len_t: usize = set_t.len();
         let set_s: OrderedSet<S> = set_t.into_vec().into_iter().map(f).collect();
-        // Key equivalence could differ between T and S.
-        if set_s.len() == 1 {
+        // Key equivalence could differ between T and S: collapse only if the mapping merged items, so that
+        // a (deserialized) set of one item maps to a set of one item.
+        if set_s.len() == 1 && len_t > 1 {
           OneOrSetInner::One(set_s.into_vec().pop().expect("OneOrSet::map infallible"))
         } else {
           OneOrSetInner::Set(set_s)
@@ -111,13 +113,15 @@ where
     Ok(OneOrSet(match self.0 {
       OneOrSetInner::One(item) => OneOrSetInner::One(f(item)?),
       OneOrSetInner::Set(set_t) => {
+        let len_t: usize = set_t.len();
         let set_s: OrderedSet<S> = set_t
           .into_vec()
           .into_iter()
           .map(f)
           .collect::<Result<OrderedSet<S>, E>>()?;
-        // Key equivalence could differ between T and S.
-        if set_s.len() == 1 {
+        // Key equivalence could differ between T and S: collapse only if the mapping merged items, so that
+        // a (deserialized) set of one item maps to a set of one item.
+        if set_s.len() == 1 && len_t > 1 {
           OneOrSetInner::One(set_s.into_vec().pop().expect("OneOrSet::try_map infallible"))
         } else {
           OneOrSetInner::Set(set_s)
